@@ -1,4 +1,4 @@
-import ApolloModel.Proofs.ParserTree35
+import ApolloModel.Proofs.ParserTree36
 import ApolloModel.Proofs.ParserComplete30
 import ApolloModel.Proofs.ParserTreeDef13
 import ApolloModel.Proofs.ParserTreeInj2
@@ -1019,6 +1019,56 @@ theorem parsed_document_roundtrip (rl : Nat) (src : Parse.Str) (root : Elem)
     | cons x r =>
       rw [hD] at hn hi hf hfit hwfm
       obtain ⟨e1, root2, e2, e3⟩ := pipeline_print_parse_document_closed pre level x r (wfDefinitions_of_mem _ hwfm) hpre hn hi hf rl2 hfit
+      exact ⟨e1, root2, e2, e3, by rw [e3]⟩
+
+/-- **parsed_document_roundtrip at the SAME recursion limit, hypothesis moved to the parser's own items.**  For every
+    source accepted with zero errors at recursion limit `rl`, with `D = Document::from_cst` of its tree and `its` the
+    decomposition of `document_pipeline_agrees` (tokens = `docToks its`, `D = its.map DocItem.conv`): either the text uses
+    a liberty (`strictItems its = none`), or — PROVIDED every item satisfies the (charged) guard `Parse.itemFit rl` of C05
+    `document_accept_complete` — for every configuration `print D` parses with ZERO errors at the SAME `rl`, `from_cst`
+    gives `D` again, and the reprint is byte-identical.  `definitionFit rl` of the AST is derived from `itemFit rl` of the
+    strict items (`Parse.definitionFit_of_strict_items`: `itemOfDef` inverts `DocItem.strict`).
+    What still separates this from the unconditional statement: C05 `document_accept_sound_exact_unconditional` gives
+    `Exact.itemFitX rl` for ITS decomposition of the same token list; needed are (1) that decomposition is this one (both
+    are pinned by the tokens and the run, not proved), (2) `itemFitX → itemFit` for strict items (`looseFit_of_looseFitX`,
+    all root names present), and (3) the exact budget `Exact.itemFit` against the charged `Parse.itemFit` that
+    `pipeline_print_parse_document_closed` uses (they differ on empty list / object literals `[]`, `{}`): either the closed
+    theorem is restated over `Exact.parseDocument_complete_items`, or the difference stays as a hypothesis. -/
+theorem parsed_document_roundtrip_same_limit (rl : Nat) (src : Parse.Str) (root : Elem)
+    (h : (parse .document none rl src).outcome = .tree root) (herr : (parse .document none rl src).errors = []) :
+    ∃ its : List Parse.DocItem, sigToks (Apollo.Lex.lex none src) = some (Parse.docToks its) ∧
+      (FromCst.fromCst root).1 = its.map Parse.DocItem.conv ∧
+      (Parse.strictItems its = none ∨
+       ((∀ i ∈ its, Parse.itemFit rl i) →
+        ∀ (pre : Option Ast.Str) (level : Nat), (∀ p, pre = some p → p.all Apollo.Strs.isWs = true) →
+          (parse .document none rl (serializeDocument pre level (FromCst.fromCst root).1).out).errors = [] ∧
+          ∃ root2, (parse .document none rl (serializeDocument pre level (FromCst.fromCst root).1).out).outcome = .tree root2 ∧
+            (FromCst.fromCst root2).1 = (FromCst.fromCst root).1 ∧
+            (serializeDocument pre level (FromCst.fromCst root2).1).out =
+              (serializeDocument pre level (FromCst.fromCst root).1).out)) := by
+  obtain ⟨hclean, ts, e, its, h1, h2, h3, h4, h5, h6, h7⟩ := Parse.parseDocument_agrees rl src root h herr
+  refine ⟨its, (Parse.sigToks_src_iff src _).mpr ⟨hclean, ts, e, h1, h2, h4⟩, h6, ?_⟩
+  cases hs : Parse.strictItems its with
+  | none => exact Or.inl rfl
+  | some items =>
+    right
+    intro hfit pre level hpre
+    obtain ⟨a, b, c, dd, _⟩ := h7 items hs
+    have hok : ∀ t ∈ itemsToks items, Parse.TokOkA t :=
+      Parse.tokOkA_of_src src hclean ts e h1 (itemsToks items) (by rw [← b]; exact h4)
+    have hdf := Parse.definitionFit_of_strict_items rl its items hs hfit
+    rw [dd]
+    have hwfm : ∀ x ∈ items.map (·.2), wfDefinition x = true := by
+      intro x hx
+      obtain ⟨i, hi, rfl⟩ := List.mem_map.mp hx
+      exact c i hi
+    obtain ⟨hn, hi, hf⟩ := Parse.segs_hyps_of_toks pre level (items.map (·.2))
+      (Parse.tokOkA_printed (outputEmptyAtStart pre level) items hok)
+    cases hD : items.map (·.2) with
+    | nil => exact absurd hD (by simpa using a)
+    | cons x r =>
+      rw [hD] at hn hi hf hdf hwfm
+      obtain ⟨e1, root2, e2, e3⟩ := pipeline_print_parse_document_closed pre level x r (wfDefinitions_of_mem _ hwfm) hpre hn hi hf rl hdf
       exact ⟨e1, root2, e2, e3, by rw [e3]⟩
 
 end PropertyStatement
